@@ -66,11 +66,12 @@ impl Qcow2IoSync {
         } else {
             if (res as usize) != buf.len() {
                 eprintln!(
-                    "short write: ask for {}, read {}, offset {:x}",
+                    "short write: ask for {}, written {}, offset {:x}",
                     buf.len(),
                     res,
                     offset
                 );
+                return Err("libc::pwrite: short write".into());
             }
             Ok(())
         }
